@@ -131,6 +131,72 @@ func monitor(c hxlib.Case, outs []string) (vs []hxlib.Violation) {
 		}
 		return append(vs, judgeTrace(c.Lines[1:], c.Lines[:1])...)
 	}
+	vs = monitorSeq(c, outs, true)
+	// the replies read AGAIN later, through the slices the send function was given (what a consumer that queues
+	// replies — the websocket writer — puts on the wire): they are the same messages, and they follow the protocol
+	for i, l := range c.Lines {
+		if l == "late" && strings.HasPrefix(outs[i], "changed") {
+			vs = append(vs, lateViolations(c, outs, i)...)
+			break
+		}
+	}
+	return vs
+}
+
+// lateViolations judges the output of a `late` line that reports changed replies.
+func lateViolations(c hxlib.Case, outs []string, at int) (vs []hxlib.Violation) {
+	f := strings.Fields(outs[at])
+	outs2 := append([]string{}, outs[:at+1]...)
+	kindOfLine := func(k int) string {
+		if k < 0 || k >= len(c.Lines) {
+			return "?"
+		}
+		lf := strings.Fields(c.Lines[k])
+		if len(lf) >= 2 && lf[0] == "m" {
+			return "m:" + classify(unhx(lf[1])).Kind
+		}
+		if len(lf) > 0 {
+			return lf[0]
+		}
+		return "?"
+	}
+	for _, w := range f[1:] {
+		switch {
+		case strings.HasPrefix(w, "first="):
+			p := strings.Split(strings.TrimPrefix(w, "first="), ":")
+			if len(p) == 3 {
+				var k int
+				fmt.Sscan(p[0], &k)
+				vs = append(vs, hxlib.Violation{Sig: "C13:reply-changed-after-send:" + kindOfLine(k),
+					What:  fmt.Sprintf("a reply changed after it was handed to the send function: sent as %q, the same slice reads %q after the following replies / operations (%s; the connection's send function may queue the slice, as the websocket API does)", unhx(p[1]), unhx(p[2]), f[1]),
+					Lines: c.Lines[:at+1], Output: outs[:at+1]})
+			}
+		case strings.HasPrefix(w, "L"):
+			kv := strings.SplitN(w[1:], "=", 2)
+			var k int
+			if len(kv) != 2 {
+				continue
+			}
+			if _, err := fmt.Sscan(kv[0], &k); err != nil || k < 0 || k >= len(outs2) {
+				continue
+			}
+			batch := strings.ReplaceAll(kv[1], ",", " ")
+			if lf := strings.Fields(c.Lines[k]); len(lf) > 0 && (lf[0] == "seed" || lf[0] == "seedstruct") {
+				batch = strings.Fields(outs[k])[0] + " " + batch
+			}
+			outs2[k] = batch
+		}
+	}
+	for _, v := range monitorSeq(hxlib.Case{Lines: c.Lines[:at+1], Kind: c.Kind}, outs2, false) {
+		v.What = "replies as they read when taken from the queue later (not as they were at the moment of the send call): " + v.What
+		v.Lines, v.Output = c.Lines[:at+1], outs[:at+1]
+		vs = append(vs, v)
+	}
+	return vs
+}
+
+// monitorSeq: the statement on one connection's message sequence; useRaw: judge the arrival order recorded in rawOuts.
+func monitorSeq(c hxlib.Case, outs []string, useRaw bool) (vs []hxlib.Violation) {
 	add := func(i int, sig, what string) {
 		lo := 0
 		if i > 40 {
@@ -152,7 +218,7 @@ func monitor(c hxlib.Case, outs []string) (vs []hxlib.Violation) {
 	for i, l := range c.Lines {
 		f := strings.Fields(l)
 		o := outs[i]
-		if raw, ok := rawOuts[i]; ok && sortBatchLine(f, raw) == o {
+		if raw, ok := rawOuts[i]; useRaw && ok && sortBatchLine(f, raw) == o {
 			o = raw // judge the arrival order, not the sorted form
 		}
 		if len(f) == 0 {
@@ -182,7 +248,7 @@ func monitor(c hxlib.Case, outs []string) (vs []hxlib.Violation) {
 		}
 		batch := o
 		switch f[0] {
-		case "cfg", "conc", "t":
+		case "cfg", "conc", "t", "late":
 			continue
 		case "seed", "seedstruct":
 			sp := strings.SplitN(o, " ", 2)
@@ -360,6 +426,50 @@ func monitor(c hxlib.Case, outs []string) (vs []hxlib.Violation) {
 
 // judgeTrace applies the monitor to a recorded concurrent trace (lines "t req|rep|final …").
 func judgeTrace(lines []string, head []string) (vs []hxlib.Violation) {
+	vs = judgeTraceCore(lines, head)
+	// replies that read differently at the end of the scenario than at the moment of their send call
+	late := map[int]string{}
+	for _, l := range lines {
+		if f := strings.Fields(l); len(f) == 4 && f[0] == "t" && f[1] == "late" {
+			var n int
+			if _, err := fmt.Sscan(f[2], &n); err == nil {
+				late[n] = f[3]
+			}
+		}
+	}
+	if len(late) == 0 {
+		return vs
+	}
+	var lateLines []string
+	n, first := 0, true
+	for _, l := range lines {
+		f := strings.Fields(l)
+		if len(f) == 3 && f[0] == "t" && f[1] == "rep" {
+			if now, ok := late[n]; ok {
+				if first {
+					first = false
+					vs = append(vs, hxlib.Violation{Sig: "C13:reply-changed-after-send:trace",
+						What:  fmt.Sprintf("a reply changed after it was handed to the send function: sent as %q, the same slice reads %q at the end of the scenario (%d replies changed)", unhx(f[2]), unhx(now), len(late)),
+						Lines: append(append([]string{}, head...), lines...)})
+				}
+				l = "t rep " + now
+			}
+			n++
+		}
+		if len(f) >= 2 && f[1] == "late" {
+			continue
+		}
+		lateLines = append(lateLines, l)
+	}
+	for _, v := range judgeTraceCore(lateLines, head) {
+		v.What = "replies as they read when taken from the queue later: " + v.What
+		v.Lines = append(append([]string{}, head...), lines...)
+		vs = append(vs, v)
+	}
+	return vs
+}
+
+func judgeTraceCore(lines []string, head []string) (vs []hxlib.Violation) {
 	acc := newAcceptor()
 	ops := map[string]bool{}
 	writes := map[string][][]byte{}
